@@ -219,8 +219,17 @@ def validate_runs(ctx, runs, name):
         json.dump(runs, f)
     res = tlc.run(ctx, "RenderTrace", TRACE_CFG, name=name, env={"TRACE_FILE": path}, coverage=True,
                   timeout=1200, heap="6g")
+    if not res.ok and res.kind == "error":
+        # seen only while several checks ran at once on a machine at load > 100 (resource exhaustion
+        # inside the JVM); the input is a file, so the run can simply be repeated once
+        ctx.note("RenderTrace: TLC error, repeating once: %s" % res.message.splitlines()[0][:200] if res.message else "RenderTrace: TLC error, repeating once")
+        res = tlc.run(ctx, "RenderTrace", TRACE_CFG, name=name + "_again", env={"TRACE_FILE": path}, coverage=True,
+                      timeout=1200, heap="6g", workers=4)
     if not res.ok:
-        ctx.machinery("RenderTrace.tla failed (%s %s): trace validation is broken\n%s" % (res.kind, res.name, res.out[-1500:]))
+        lines = res.out.splitlines()
+        at = next((i for i, ln in enumerate(lines) if ln.startswith("Error:")), max(0, len(lines) - 30))
+        ctx.machinery("RenderTrace.tla failed (%s %s): trace validation is broken\n%s"
+                      % (res.kind, res.name, "\n".join(ln[:300] for ln in lines[at:at + 30])))
     verdicts = {}
     for v in res.emitted:
         verdicts[v["tid"] - 1] = v
@@ -476,6 +485,31 @@ def sharing(case):
     return out
 
 
+def volume_shapes(case):
+    """size-sensitive shapes of a collection: (first-paragraph words, page offset) of a float block
+    shifted down the page, and (blocks, words, other cell empty) of big table cells"""
+    floats, cells = set(), set()
+    for art in case["arts"]:
+        lead = 0
+        for k, b in enumerate(art):
+            if b["b"] == "para" and len(b["xs"]) == 1 and b["xs"][0]["t"] == "w":
+                lead += 1
+                continue
+            if (b["b"] == "fig" and b["x"]["i"] == 4 and lead == k and k + 1 < len(art) and art[k + 1]["b"] == "para"
+                    and art[k + 1]["xs"] and art[k + 1]["xs"][0]["t"] == "ws"):
+                floats.add((art[k + 1]["xs"][0]["k"], lead))
+            break
+        for b in art:
+            if b["b"] != "table":
+                continue
+            for row in b["rows"]:
+                for c in row:
+                    words = sum(x.get("k", 1) for ib in c["inner"] if ib["b"] == "para" for x in ib["xs"])
+                    if words >= 100:
+                        cells.add((len(c["inner"]), words, any(not o["xs"] and not o["inner"] for o in row)))
+    return floats, cells
+
+
 RUN_KINDS = ("fig", "gallery", "table", "imgpara")
 FOLLOWERS = ("end", "head", "table", "gallery", "pre", "para", "list")
 
@@ -576,8 +610,9 @@ def run(ctx):
                  ("one_pairs", dict(maxarts=1, maxblocks=1, palette="pairs", chapters=False)),
                  ("one_runs3", dict(maxarts=1, maxblocks=1, palette="runs3", chapters=False)),
                  ("two_share", dict(maxarts=2, maxblocks=1, palette="share", chapters=False)),
+                 ("one_volume", dict(maxarts=1, maxblocks=1, palette="volume", chapters=False)),
                  ("two_mini", dict(maxarts=2, maxblocks=1, palette="mini", chapters=True))]
-        nsim, maxblocks, maxrun, share_arts = 96, 4, 3, 2
+        nsim, maxblocks, maxrun, share_arts = 80, 4, 3, 2
     else:
         plans = [("one_full", dict(maxarts=1, maxblocks=1, palette="full", chapters=False)),
                  ("one_pairsall", dict(maxarts=1, maxblocks=1, palette="pairsall", chapters=False)),
@@ -585,6 +620,7 @@ def run(ctx):
                  ("one_core2", dict(maxarts=1, maxblocks=2, minblocks=2, palette="core", chapters=False)),
                  ("two_core", dict(maxarts=2, maxblocks=1, palette="core", chapters=True)),
                  ("three_share", dict(maxarts=3, maxblocks=1, palette="share", chapters=False)),
+                 ("one_volumeall", dict(maxarts=1, maxblocks=1, palette="volumeall", chapters=False)),
                  ("four_sharesame", dict(maxarts=4, maxblocks=1, palette="sharesame", chapters=True)),
                  ("three_mini", dict(maxarts=3, maxblocks=1, palette="mini", chapters=True))]
         nsim, maxblocks, maxrun, share_arts = 3200, 5, 5, 4
@@ -674,6 +710,20 @@ def run(ctx):
     lacking += [(k, 1) for k in ("refreuse", "chaptitle") if not sharecov.get(k)]
     if lacking:
         ctx.machinery("book-level sharing never enumerated in the exhaustive part (kind, articles): %s" % lacking)
+    # ---- coverage of volume: a float block at every offset of a page, big cells, multi-page output
+    vfloats, vcells = set(), set()
+    for c in caselist:
+        if c.get("origin", "").startswith("bfs:"):
+            f, cl = volume_shapes(c)
+            vfloats |= f
+            vcells |= cl
+    offsets = {}
+    for p1, off in vfloats:
+        offsets.setdefault(p1, set()).add(off)
+    if not any(len(v) >= 48 for v in offsets.values()) or len(vcells) < 5:
+        ctx.machinery("volume shapes missing from the exhaustive part: float-block offsets %s, big cells %s"
+                      % ({k: len(v) for k, v in offsets.items()}, sorted(vcells)))
+    pages = [r["pages"] for i in rendered for r in rendered[i][1] if r["kind"] == "rl.testmode"]
     # ---- evidence
     feats = [features(c) for c in caselist]
     count = lambda k: sum(1 for f in feats if f[k])                         # noqa: E731
@@ -691,6 +741,9 @@ def run(ctx):
         section_boundary_pairs_exhaustive=len(base_exh & want), section_boundary_pairs_possible=len(want),
         section_boundary_pairs_all=len(base_all & want), section_boundary_pairs_refined=sorted("%s|%s" % p for p in refined),
         adjacent_figure_pairs=sorted("%s|%s" % p for p in figpairs), collections_ending_with_figure=figlast,
+        volume_float_block_offsets={str(k): len(v) for k, v in sorted(offsets.items())},
+        volume_big_cells=sorted("%d blocks, %d words%s" % (a, b, ", next to an empty cell" if e else "") for a, b, e in vcells),
+        multi_page_testmode_runs=sum(1 for p in pages if p >= 2), max_pages_testmode=max(pages or [0]),
         sharing_exhaustive={k: sorted(v) for k, v in sorted(sharecov.items())},
         sharing_all={k: sorted(v) for k, v in sorted(sharecov_all.items())},
         collections_with_sharing=sum(1 for c in caselist if any(k != "chaptitle" for k in sharing(c))),
